@@ -7,15 +7,19 @@ legs: MC   TLC checks that every result of the MECHANISM (census pass per column
            of the input space x formatter off/on -- tables with two columns of one name (and datatype) included:
            the statement is positional, column names need not be distinct.  Non-vacuity: the mechanism as shipped
            BEFORE fix e9990d2 (a NULL cell in an Inventory column raises) must violate Total; six deliberately broken
-           mechanisms (among them: a converter finds its column by looking its description up) must be rejected.
+           mechanisms (among them: a converter finds its column by looking its description up; the converters
+           quantise through the display context with its default setting instead of through the formatter given) must
+           be rejected.  A formatter is a display context (most common / maximum digits per currency) plus the precision
+           setting it was built for; the property is stated over the display precisions of THAT formatter.
       S2C  TLC emits every table of a replay space with the set of acceptable output descriptions and, per row
            and currency, the set of acceptable cells.  The driver builds real Amount / Position / Inventory values
            and beanquery.Column descriptions, calls numberify_results(columns, rows, dformat) and compares by
-           membership; a subset is also built as a ledger and taken through run_query(.., numberify=True) and,
+           membership (formatters built for the default and for the maximum precision, with any rendering settings,
+           from contexts whose two precisions differ); a subset is also built as a ledger and taken through run_query(.., numberify=True) and,
            as a text ledger, through BQLShell (`.set numberify true`, csv into a buffer).
       C2S  random tables (plain + amount-like columns, many currencies, several lots per currency, NULL cells,
            empty inventories, zero amounts, equally named / equally described columns, display context built from
-           the values) and random ledgers queried through run_query (PIVOT BY included: NULL inventory cells; one
+           the values, formatter built for either precision setting) and random ledgers queried through run_query (PIVOT BY included: NULL inventory cells; one
            alias on several targets) are recorded as ndjson and every line is
            judged by Accepts inside TLC (Trace_Numberify).
 """
@@ -183,17 +187,102 @@ def proj_table(desc, rows, tokens):
 
 
 # ---- formatters -------------------------------------------------------------------------------------
-def make_dcontext(q):
-    """a display context whose precision for currency c is q[c]; a currency not in q stays unknown to it"""
+PRECS = ('most_common', 'maximum')
+
+
+def make_dcontext(dc, fixed=False):
+    """a display context that writes currency c mostly with dc[c][1] fractional digits and at most with dc[c][2]
+    (an entry [c, d] means both are d); a currency not listed stays unknown to it.  fixed: currencies whose two
+    numbers agree get a fixed precision (DisplayContext.set_fixed_precision) instead of learned numbers"""
     from beancount.core.display_context import DisplayContext
-    dc = DisplayContext()
-    for cur, digits in q:
-        dc.update(Decimal(1).scaleb(-digits), cur)
-    return dc
+    ctx = DisplayContext()
+    for ent in dc:
+        cur, common = ent[0], ent[1]
+        most = ent[2] if len(ent) > 2 else common
+        if most < common:
+            raise MachineryError('no display context has more common digits than maximum digits: %r' % (ent,))
+        if most == common:
+            if fixed:
+                ctx.set_fixed_precision(cur, common)
+            else:
+                ctx.update(Decimal(1).scaleb(-common), cur)
+        else:
+            ctx.update(Decimal(1).scaleb(-common), cur)
+            ctx.update(Decimal(2).scaleb(-common), cur)
+            ctx.update(Decimal(1).scaleb(-most), cur)
+    return ctx
+
+
+def build_formatter(ctx, prec, flavour=0):
+    """the formatter of display context ctx for precision setting prec; flavour varies the settings of build()
+    that concern rendering only (alignment, commas, reserved width)"""
+    from beancount.core.display_context import Align, Precision
+    if prec not in PRECS:
+        raise MachineryError('precision setting %r' % (prec,))
+    kw = {}
+    if prec == 'maximum':
+        kw['precision'] = Precision.MAXIMUM
+    elif flavour % 2:
+        kw['precision'] = Precision.MOST_COMMON
+    if flavour % 4 == 1:
+        kw.update(alignment=Align.RIGHT, commas=True)
+    elif flavour % 4 == 2:
+        kw.update(alignment=Align.DOT, reserved=2)
+    elif flavour % 4 == 3:
+        kw.update(commas=True)
+    return ctx.build(**kw)
+
+
+def formatter_of(p, flavour=0):
+    """the real formatter of an emitted / recorded case: p['dc'] + p['prec'] (older replay files: p['q'] only)"""
+    dc = p.get('dc') or p['q']
+    prec = p.get('prec', 'most_common')
+    dformat = build_formatter(make_dcontext(dc, fixed=flavour % 8 >= 4), prec, flavour)
+    curs = [e[0] for e in dc]
+    if q_of(dformat, curs) != sorted(p['q']) or shown_digits(dformat, curs) != sorted(p['q']):
+        raise MachineryError('the formatter built for %r / %s has the display precisions %r (renders %r), wanted %r' % (
+            dc, prec, q_of(dformat, curs), shown_digits(dformat, curs), p['q']))
+    return dformat
+
+
+def shown_digits(dformat, currencies):
+    """the number of fractional digits the formatter renders each currency with (cross-check of q_of)"""
+    out = []
+    for c in sorted(currencies):
+        text = dformat.format(Decimal(1), c).strip()
+        out.append([c, len(text.partition('.')[2])])
+    return out
+
+
+def prec_of(dformat):
+    from beancount.core.display_context import Precision
+    if dformat.precision is Precision.MOST_COMMON:
+        return 'most_common'
+    if dformat.precision is Precision.MAXIMUM:
+        return 'maximum'
+    raise OutOfDomain('precision setting %r' % (dformat.precision,))
+
+
+def dc_of(dformat, currencies):
+    """the display context a formatter was built from, per currency [c, most common digits, maximum digits]: an
+    INPUT of the property, read through beancount's API; a currency unknown to the context is not listed"""
+    from beancount.core.display_context import Precision
+    out = []
+    for c in sorted(currencies):
+        cc = dformat.dcontext.ccontexts.get(c)
+        if cc is None:
+            continue
+        common, most = cc.get_fractional(Precision.MOST_COMMON), cc.get_fractional(Precision.MAXIMUM)
+        if common is None and most is None:
+            continue
+        if common is None or most is None:
+            raise OutOfDomain('half-known currency %s' % c)
+        out.append([c, common, most])
+    return out
 
 
 def q_of(dformat, currencies):
-    """the formatter's precision per currency: an INPUT of the property, read through beancount's API"""
+    """the formatter's precision per currency (the spec derives the same from dc_of / prec_of by FormatterQ)"""
     out = []
     for c in sorted(currencies):
         cc = dformat.dcontext.ccontexts.get(c)
@@ -203,6 +292,11 @@ def q_of(dformat, currencies):
                 raise OutOfDomain('precision %d' % d)
             out.append([c, d])
     return out
+
+
+def case_of(p, route):
+    return {'route': route, 'cols': p['cols'], 'rows': p['rows'], 'fmt': p['fmt'], 'q': p['q'],
+            'dc': p.get('dc') or p['q'], 'prec': p.get('prec', 'most_common'), 'descs': p['descs'], 'cells': p['cells']}
 
 
 def currencies_of(rows):
@@ -232,8 +326,7 @@ def num_py(v):
 def compare_expected(ctx, p, route, odesc, orows, plain_eq, num_of=num_py):
     """odesc: [[name, ty|None]..] (ty None = not observable on this route); orows: raw observed rows;
     plain_eq(r, j, raw) decides identity of a plain cell with input cell (r, j); num_of(raw) projects a number."""
-    case = {'route': route, 'cols': p['cols'], 'rows': p['rows'], 'fmt': p['fmt'], 'q': p['q'], 'descs': p['descs'],
-            'cells': p['cells']}
+    case = case_of(p, route)
     kind = '+'.join(c['ty'] for c in p['cols'] if c['ty'] in AMT)
     # the acceptable descriptions with the observed names (and types); equally named input columns can make several
     # of them agree on the names while differing in which input column owns an output column: the observation is
@@ -278,11 +371,17 @@ def _cell_mismatches(p, route, match, orows, plain_eq, num_of):
             acc = dict((c, a) for c, a in p['cells'][r][j - 1])[cur]
             v = num_of(orow[k])
             if v is None or v not in acc:
-                bad.append(('numberify:%s:cell:%s%s' % (route, p['cols'][j - 1]['ty'], ':fmt' if p['fmt'] else ''),
+                bad.append(('numberify:%s:cell:%s%s' % (route, p['cols'][j - 1]['ty'], fmt_tag(p)),
                             'new cell is not the units of the currency in the original value (quantised when a '
                             'formatter is given; NULL or zero when absent)',
                             {'row': r, 'column': name, 'input_column': j, 'acceptable': acc}, repr(orow[k])))
     return bad
+
+
+def fmt_tag(p):
+    if not p['fmt']:
+        return ''
+    return ':fmt' if p.get('prec', 'most_common') == 'most_common' else ':fmt-' + p['prec']
 
 
 def build_direct(p):
@@ -321,7 +420,7 @@ def s2c_direct(ctx, p, n=0):
         rows = [list(r) for r in rows]
     elif n % 3 == 2:
         desc = list(desc)
-    dformat = make_dcontext(p['q']).build() if p['fmt'] else None
+    dformat = formatter_of(p, n // 3) if p['fmt'] else None
     try:
         if p['fmt'] or n % 2:
             odesc, orows = numberify_results(desc, rows, dformat)
@@ -329,8 +428,7 @@ def s2c_direct(ctx, p, n=0):
             odesc, orows = numberify_results(desc, rows)
     except Exception as ex:  # noqa
         ctx.violation(exc_key(p['cols'], p['rows'], type(ex).__name__), 'numberify_results raised %s: %s' % (
-            type(ex).__name__, ex), {'route': 'direct', 'cols': p['cols'], 'rows': p['rows'], 'fmt': p['fmt'], 'q': p['q'],
-                                     'descs': p['descs'], 'cells': p['cells']}, 'S2C', 'a result', type(ex).__name__)
+            type(ex).__name__, ex), case_of(p, 'direct'), 'S2C', 'a result', type(ex).__name__)
         return False
     od = [[x['name'], x['ty']] for x in proj_desc(odesc)]
     return compare_expected(ctx, p, 'direct', od, orows, lambda r, j, got: identical(got, rows[r][j]))
@@ -421,7 +519,12 @@ def s2c_run_query(ctx, p):
     ty = p['cols'][1]['ty']
     lrows = ledger_rows(p)
     entries = entries_of(lrows)
-    options = options_with(make_dcontext(p['q']))
+    # run_query builds the formatter itself, with the defaults of build()
+    if p.get('prec', 'most_common') != 'most_common':
+        raise MachineryError('run_query builds its formatter with the defaults: only most_common cases are routed')
+    options = options_with(make_dcontext(p.get('dc') or p['q']))
+    if q_of(options['dcontext'].build(), [e[0] for e in p['q']]) != sorted(p['q']):
+        raise MachineryError('run_query route: display precisions are not the emitted ones: %r' % (p['q'],))
     text = QUERIES[ty]
     # the table the query yields must be the emitted one (otherwise the route, not the code, is at fault)
     conn = beanquery.connect('beancount:', entries=entries, errors=[], options=options)
@@ -434,8 +537,7 @@ def s2c_run_query(ctx, p):
         odesc, orows = run_query(entries, options, text, numberify=True)
     except Exception as ex:  # noqa
         ctx.violation(exc_key(p['cols'], p['rows'], type(ex).__name__), 'run_query(numberify=True) raised %s: %s' % (
-            type(ex).__name__, ex), {'route': 'run_query', 'cols': p['cols'], 'rows': p['rows'], 'fmt': 1, 'q': p['q'],
-                                     'descs': p['descs'], 'cells': p['cells']}, 'S2C', 'a result', type(ex).__name__)
+            type(ex).__name__, ex), case_of(p, 'run_query'), 'S2C', 'a result', type(ex).__name__)
         return False
     plain = [(i, acct) for acct, _posts, i in lrows]
     od = [[x['name'], x['ty']] for x in proj_desc(odesc)]
@@ -496,8 +598,7 @@ def s2c_shell(ctx, p, n):
         cur = sh.context.execute(parsed(QUERIES['Inventory']))
         if not same_table(p, cur.description, cur.fetchall()):
             raise MachineryError('shell route did not rebuild the emitted table: %r\n%s' % (p['rows'], text))
-        case = {'route': 'shell', 'cols': p['cols'], 'rows': p['rows'], 'fmt': p['fmt'], 'q': p['q'],
-                'descs': p['descs'], 'cells': p['cells']}
+        case = case_of(p, 'shell')
         try:
             sh.onecmd('.set numberify %s' % ('true' if p['fmt'] else 'false'))
             if sh.settings.numberify is not bool(p['fmt']):
@@ -649,7 +750,11 @@ def rnd_table(rng):
         # one description object per (name, datatype), as a caller that interns its descriptions would pass
         seen = {}
         desc = [seen.setdefault((c.name, c.datatype), c) for c in desc]
-    dformat = dc.build() if rng.random() < 0.6 else None
+    # the formatter, when one is given: built for either precision setting (the context has seen every number of the
+    # table: the most common and the maximum number of digits of a currency often differ), any rendering settings
+    dformat = None
+    if rng.random() < 0.6:
+        dformat = build_formatter(dc, rng.choice(['most_common', 'most_common', 'maximum']), rng.randrange(4))
     return tuple(desc), rows, dformat
 
 
@@ -658,11 +763,17 @@ def record_line(f, cid, route, desc, rows, dformat, call):
     tokens = Tokens()
     try:
         cols, prow = proj_table(desc, rows, tokens)
-        q = q_of(dformat, currencies_of(prow)) if dformat is not None else []
+        q, dc, prec = [], [], 'most_common'
+        if dformat is not None:
+            curs = currencies_of(prow)
+            q, dc, prec = q_of(dformat, curs), dc_of(dformat, curs), prec_of(dformat)
+            if [e[0] for e in q] != [e[0] for e in dc]:
+                raise MachineryError('formatter read inconsistently: %r / %r' % (q, dc))
     except OutOfDomain:
         return None
-    ev = {'id': cid, 'route': route, 'fmt': 1 if dformat is not None else 0, 'q': q, 'cols': cols, 'rows': prow,
-          'exc': '', 'ocols': [], 'orows': []}
+    # q (the display precisions of the formatter) is informative: the specification derives them from dc and prec
+    ev = {'id': cid, 'route': route, 'fmt': 1 if dformat is not None else 0, 'q': q, 'dc': dc, 'prec': prec,
+          'cols': cols, 'rows': prow, 'exc': '', 'ocols': [], 'orows': []}
     try:
         odesc, orows = call()
         ev['ocols'] = proj_desc(odesc)
@@ -725,7 +836,8 @@ def record_c2s(ctx, path, ntables, nledgers):
     from beanquery.numberify import numberify_results
     from beanquery.query import run_query
     rng = ctx.rng
-    stats = {'direct': 0, 'run_query': 0, 'raised': 0, 'fmt': 0, 'null_inventory': 0, 'amount_like_columns': 0,
+    stats = {'direct': 0, 'run_query': 0, 'raised': 0, 'fmt': 0, 'fmt_maximum': 0, 'fmt_maximum_differs': 0,
+             'fmt_common_differs': 0, 'null_inventory': 0, 'amount_like_columns': 0,
              'dup_named': 0, 'dup_described': 0, 'dup_named_ledger': 0}
     nev = 0
     with open(path, 'w') as f:
@@ -765,6 +877,14 @@ def _tally(ctx, ev, stats):
     namt = sum(1 for c in ev['cols'] if c['ty'] in AMT)
     stats['amount_like_columns'] += namt
     stats['fmt'] += ev['fmt']
+    if ev['fmt']:
+        # formatters under which some cell of the table is quantised differently by the other precision setting
+        differs = _settings_differ(ev)
+        if ev['prec'] == 'maximum':
+            stats['fmt_maximum'] += 1
+            stats['fmt_maximum_differs'] += differs
+        else:
+            stats['fmt_common_differs'] += differs
     if ev['exc']:
         stats['raised'] += 1
     if has_null_inventory(ev['cols'], ev['rows']):
@@ -774,7 +894,20 @@ def _tally(ctx, ev, stats):
         stats['dup_named'] += 1
         if len({(c['name'], c['ty']) for c in ev['cols']}) < len(names):
             stats['dup_described'] += 1
-    ctx.case(json.dumps([ev['cols'], ev['rows'], ev['fmt'], ev['q']]), nontrivial=namt > 0 and len(ev['rows']) > 0)
+    ctx.case(json.dumps([ev['cols'], ev['rows'], ev['fmt'], ev['dc'], ev['prec']]), nontrivial=namt > 0 and len(ev['rows']) > 0)
+
+
+def _settings_differ(ev):
+    """does some lot of the table carry more fractional digits than the smaller of the two precisions of its
+    currency, the two being different? (then the precision setting of the formatter matters for this table)"""
+    dc = {c: (a, b) for c, a, b in ev['dc']}
+    for row in ev['rows']:
+        for cell in row:
+            for lot in cell['lots']:
+                a, b = dc.get(lot['c'], (0, 0))
+                if a != b and 10 ** min(a, b) % lot['n'][1] != 0:
+                    return 1
+    return 0
 
 
 def validate_trace(ctx, path, nev, what):
@@ -790,7 +923,7 @@ def validate_trace(ctx, path, nev, what):
             clause = '%s raised %s: %s' % (ev['route'], ev['exc'], ev.get('msg', ''))
         else:
             kind = '+'.join(sorted({c['ty'] for c in ev['cols'] if c['ty'] in AMT}))
-            key = 'numberify:%s:%s:%s%s' % (ev['route'], rj['clauses'][0], kind, ':fmt' if ev['fmt'] else '')
+            key = 'numberify:%s:%s:%s%s' % (ev['route'], rj['clauses'][0], kind, fmt_tag(ev))
             clause = 'recorded call not accepted by the specification: ' + ', '.join(rj['clauses'])
         ctx.violation(key, clause, {'route': ev['route'], 'event': ev}, 'C2S', 'Accepts', rj['clauses'])
     if res.violated:
@@ -804,6 +937,7 @@ def validate_trace(ctx, path, nev, what):
 
 # ---- the check --------------------------------------------------------------------------------------
 NONVACUITY = [('MC_Numberify_shipped.cfg', 'Total'), ('MC_Numberify_cap2.cfg', 'NoCurrencyDropped'),
+              ('MC_Numberify_ctxdefault.cfg', 'SumPreserved'),
               ('MC_Numberify_asc.cfg', 'FreqOrdered'), ('MC_Numberify_poscost.cfg', 'SumPreserved'),
               ('MC_Numberify_noquant.cfg', 'SumPreserved'), ('MC_Numberify_lot1.cfg', 'Correct'),
               ('MC_Numberify_byname.cfg', 'Correct')]
@@ -819,7 +953,10 @@ def run(ctx):
         'zero may or may not count, and a currency occurring only with zero may or may not get a column',
         'a quantity of zero (absent currency, lots that cancel, a number that quantises to zero) may be NULL or 0',
         'quantised = a nearest multiple of 10^-precision (an exact tie may go either way); a currency the formatter '
-        'does not know is not quantised; the precision per currency is read from the formatter (beancount API)',
+        'does not know is not quantised; "the currency\'s display precision when a formatter is given" is the precision '
+        'THE FORMATTER GIVEN displays the currency with: a formatter is a display context plus one precision setting '
+        '(most common / maximum number of fractional digits, DisplayContext.build(precision=..)), both read through the '
+        'beancount API and combined by the specification (FormatterQ)',
         'input column names need not be distinct: ownership of the output columns is positional, and where equal '
         'names leave the boundary between two groups of new columns open, any assignment satisfying every clause is '
         'accepted; |numbers| < 20000 with <= 4 fractional digits (32-bit rationals in TLC), anything else is skipped '
@@ -853,6 +990,11 @@ def run(ctx):
         if res.violated:
             ctx.violation('spec:' + ','.join(res.violated), 'TLC: the mechanism violates the declarative statement',
                           {'behaviour': res.behaviour[:4000]}, 'MC')
+        # the formatter given is built for the precision setting "maximum" (the display context distinguishes the two)
+        res = ctx.tlc('MC_Numberify', 'MC_Numberify_max.cfg', leg='MC')
+        if res.violated:
+            ctx.violation('spec:max:' + ','.join(res.violated), 'TLC: the mechanism violates the declarative statement '
+                          'for a formatter built with precision=MAXIMUM', {'behaviour': res.behaviour[:4000]}, 'MC')
         for cfg, inv in NONVACUITY:
             # MC_Numberify_shipped.cfg is the mechanism as the code had it before fix e9990d2 (None.currencies() raises):
             # TLC exhibits the counterexample on the specification; on the code the conformance legs report it under
@@ -863,22 +1005,26 @@ def run(ctx):
     if want('S2C'):
         n = nroute = 0
         kinds = {}
-        cfgs = ctx.pick(['Gen_Numberify.cfg'], ['Gen_Numberify_thorough1.cfg', 'Gen_Numberify_thorough2.cfg',
-                              'Gen_Numberify_thorough3.cfg'])
+        cfgs = ctx.pick(['Gen_Numberify.cfg', 'Gen_Numberify_max.cfg'],
+                        ['Gen_Numberify_thorough1.cfg', 'Gen_Numberify_thorough2.cfg', 'Gen_Numberify_thorough3.cfg',
+                         'Gen_Numberify_max.cfg'])
+        nmax = 0
         for cfg in cfgs:
             res = ctx.tlc('Gen_Numberify', cfg, leg='GEN')
             cases = res.printed
             del res
-            cand = [i for i, p in enumerate(cases) if routable(p) and p['fmt']]
+            cand = [i for i, p in enumerate(cases) if routable(p) and p['fmt'] and p['prec'] == 'most_common']
             pick_rq = set(ctx.rng.sample(cand, min(ctx.pick(120, 600), len(cand))))
             for i, p in enumerate(cases):
                 n += 1
                 nontrivial = bool(p['rows']) and any(cell['lots'] for row in p['rows'] for cell in row)
-                ctx.case(json.dumps([p['cols'], p['rows'], p['fmt']]), nontrivial)
-                kind = '+'.join(c['ty'] for c in p['cols'] if c['ty'] in AMT) + (':fmt' if p['fmt'] else '')
+                ctx.case(json.dumps([p['cols'], p['rows'], p['fmt'], p['prec'] if p['fmt'] else '']), nontrivial)
+                kind = '+'.join(c['ty'] for c in p['cols'] if c['ty'] in AMT) + fmt_tag(p)
+                nmax += 1 if p['fmt'] and p['prec'] == 'maximum' else 0
                 kinds[kind] = kinds.get(kind, 0) + 1
                 if nontrivial and p['fmt'] and len(ctx.samples) < 2 and len(p['rows']) > 1 and n % 97 == 0:
                     ctx.sample({'leg': 'S2C', 'cols': p['cols'], 'rows': p['rows'], 'fmt': p['fmt'], 'q': p['q'],
+                                'dc': p['dc'], 'prec': p['prec'],
                                 'acceptable_descriptions': p['descs'][:3], 'acceptable_cells': p['cells']})
                 s2c_direct(ctx, p, n)
                 ctx.traces += 1
@@ -890,9 +1036,11 @@ def run(ctx):
             del cases
         if n == 0:
             raise MachineryError('Gen_Numberify emitted nothing')
-        ctx.leg('S2C', cases=n, by_kind=kinds, run_query_cases=nroute)
+        ctx.leg('S2C', cases=n, by_kind=kinds, run_query_cases=nroute, formatter_maximum_cases=nmax)
         if nroute == 0:
             raise MachineryError('vacuity: no case went through run_query')
+        if nmax == 0:
+            raise MachineryError('vacuity: no case with a formatter built for the maximum precision')
         # the shell
         res = ctx.tlc('Gen_Numberify', 'Gen_Numberify_shell.cfg', leg='GEN-shell', workers=4)
         cand = [p for p in res.printed if shell_routable(p)]
@@ -921,6 +1069,8 @@ def run(ctx):
         ctx.leg('C2S', **stats)
         if stats['run_query'] == 0 or stats['direct'] == 0:
             raise MachineryError('vacuity: a C2S route recorded nothing')
+        if stats['fmt_maximum_differs'] == 0 or stats['fmt_common_differs'] == 0:
+            raise MachineryError('vacuity: no C2S table on which the precision setting of the formatter matters')
         if stats['dup_described'] == 0 or stats['dup_named_ledger'] == 0:
             raise MachineryError('vacuity: no C2S table with two columns of one name and datatype')
         cpu('C2S')
@@ -935,10 +1085,11 @@ def replay(ctx, rep):
     if 'event' in case:
         # a recorded call: rebuild the input from its abstract form, call numberify_results, let TLC judge
         ev = case['event']
-        p = {'cols': ev['cols'], 'rows': ev['rows'], 'fmt': ev['fmt'], 'q': ev['q']}
+        p = {'cols': ev['cols'], 'rows': ev['rows'], 'fmt': ev['fmt'], 'q': ev['q'], 'dc': ev.get('dc') or ev['q'],
+             'prec': ev.get('prec', 'most_common')}
         from beanquery.numberify import numberify_results
         desc, rows = build_abstract(p)
-        dformat = make_dcontext(p['q']).build() if p['fmt'] else None
+        dformat = formatter_of(p) if p['fmt'] else None
         path = ctx.path('replay.ndjson')
         with open(path, 'w') as f:
             new = record_line(f, 1, 'direct', desc, rows, dformat, lambda: numberify_results(desc, rows, dformat))
